@@ -57,8 +57,12 @@ def run_check(prop, tier, seed, replay=None, jobs=None, quiet=False):
             out = os.path.join(work, 'shard-%s-%d.json' % (cfg, i))
             cmd = [PY, '-m', 'vt.shard', '--prop', prop, '--tier', tier, '--seed', str(seed),
                    '--shard', str(i), '--nshards', str(n), '--config', cfg, '--out', out]
-            if plan.get('budget'):
-                cmd += ['--budget', str(plan['budget'])]
+            # thorough tiers stop generating cases at 80% of the shard watchdog: a shard that ran out of time
+            # still reports what it observed (the evidence says how many shards stopped early) instead of being
+            # killed and turning the whole run inconclusive
+            budget = plan.get('budget', int(0.8 * plan.get('timeout', 900)) if tier == 'thorough' else None)
+            if budget:
+                cmd += ['--budget', str(budget)]
             if replay:
                 cmd += ['--replay', os.path.abspath(replay)]
             todo.append((cfg, i, out, cmd))
@@ -172,6 +176,8 @@ def run_check(prop, tier, seed, replay=None, jobs=None, quiet=False):
         for b in plan.get('require_branches', getattr(mod, 'REQUIRED_BRANCHES', [])):
             if merged['branches'].get(b, 0) == 0:
                 inconclusive.append('required branch/class %s never reached' % b)
+        if plan.get('exhaustive') and merged['stopped_early']:
+            inconclusive.append('%d shards ran out of time before the exhaustive enumeration was complete' % merged['stopped_early'])
         if merged['cases'] < plan.get('min_cases', 1):
             inconclusive.append('only %d cases (< %d)' % (merged['cases'], plan.get('min_cases', 1)))
         if merged['timeouts'] > plan.get('max_timeouts', 0):
@@ -191,7 +197,8 @@ def run_check(prop, tier, seed, replay=None, jobs=None, quiet=False):
                 'distinct_nontrivial': distinct,
                 'rule': mod.RULE,
                 'samples': merged['samples'][:6] or ['<none>'],
-                'exhaustive': bool(plan.get('exhaustive', False)),
+                'exhaustive': bool(plan.get('exhaustive', False)) and not merged['stopped_early'],
+                'shards_stopped_at_time_budget': merged['stopped_early'],
                 'cases': merged['cases'],
                 'cases_per_config': merged['per_config_cases'],
                 'monitor_evaluations': {k: v for k, v in sorted(merged['monitors'].items())},
